@@ -49,7 +49,18 @@ enum Src {
     Linspace(f64, f64, usize),
     RollIter(usize),
     Winsor(u8, f64),
+    /// vcut with bin configuration k of CUTS (fallible items: an error item still counts as an item)
+    VCut(usize),
 }
+/// (edges, labels, right, add_bounds): values of the word alphabet fall inside, outside and on the open edge
+const CUTS: [(&[f64], &[f64], bool, bool); 6] = [
+    (&[0.5, 1.5], &[10.0], true, false),
+    (&[1.0, 2.0], &[10.0], true, false),
+    (&[1.0, 2.0], &[10.0], false, false),
+    (&[0.0, 1.0, 2.0], &[10.0, 20.0], true, false),
+    (&[-1.0, 0.0, 1.0], &[10.0, 20.0], false, false),
+    (&[1.0], &[10.0, 20.0], true, true),
+];
 #[derive(Clone, Debug, PartialEq)]
 enum Ad {
     Shift(i32, f64),
@@ -62,6 +73,8 @@ enum Ad {
     VClip(X, X),
     Abs,
     VAbs,
+    /// a state-carrying std adaptor the library declares trusted (keeps a running count, yields its input)
+    Scan,
 }
 impl Src {
     fn trust_iter(&self) -> bool {
@@ -80,6 +93,7 @@ struct Data {
     deques: Vec<VecDeque<f64>>,
     arr: Array1<f64>,
     bases: Vec<(isize, Array1<f64>)>,
+    cuts: Vec<(Vec<f64>, Vec<f64>)>,
 }
 impl Data {
     fn new(word: &[X]) -> Data {
@@ -89,6 +103,7 @@ impl Data {
             deques: (0..8).map(|o| deque_with_head(&vec, 8, o, 0.0)).collect(),
             arr: Array1::from_vec(vec.clone()),
             bases: [2isize, -1, -2].iter().map(|st| (*st, strided_base(&vec, *st, 0.0))).collect(),
+            cuts: CUTS.iter().map(|c| (c.0.to_vec(), c.1.to_vec())).collect(),
             vec,
         }
     }
@@ -133,6 +148,11 @@ fn source<'a>(d: &'a Data, pol: &'a Option<Float64Chunked>, src: &Src) -> It<'a>
                 _ => WinsorizeMethod::Sigma,
             };
             d.vec.winsorize(m, Some(*p)).expect("winsorize parameters are valid")
+        }
+        Src::VCut(k) => {
+            let (bins, labels) = &d.cuts[*k];
+            let it = d.vec.titer().vcut::<Vec<f64>, Vec<f64>, f64>(bins, labels, CUTS[*k].2, CUTS[*k].3).expect("cut configuration is valid");
+            Box::new(it.map(|r| r.unwrap_or(-1.0)))
         }
         Src::Range(..) | Src::Linspace(..) => panic!("generators are observed through the probe collector"),
         _ => unreachable!(),
@@ -204,6 +224,10 @@ fn apply<'a>(it: It<'a>, ad: &Ad) -> It<'a> {
         Ad::VClip(lo, hi) => it.vclip(lo.unwrap_or(f64::NAN), hi.unwrap_or(f64::NAN)),
         Ad::Abs => Box::new(it.abs()),
         Ad::VAbs => Box::new(it.vabs()),
+        Ad::Scan => Box::new(it.scan(0.0f64, |s, x| {
+            *s += 1.0;
+            Some(x)
+        })),
     }
 }
 
@@ -224,6 +248,8 @@ fn build<'a>(d: &'a Data, pol: &'a Option<Float64Chunked>, src: &Src, ads: &[Ad]
 
 /// one forward pass: hints before each next(), items; capped at first hint + 4096
 struct Pass {
+    /// TrustedLen::len() in every state (usize::MAX where the upper hint is absent)
+    lens: Vec<usize>,
     hints: Vec<(usize, Option<usize>)>,
     items: Vec<f64>,
     capped: bool,
@@ -231,9 +257,10 @@ struct Pass {
 fn forward_pass(mut it: It) -> Pass {
     let first = it.size_hint();
     let cap = first.1.unwrap_or(first.0).saturating_add(4096);
-    let mut p = Pass { hints: vec![], items: vec![], capped: false };
+    let mut p = Pass { lens: vec![], hints: vec![], items: vec![], capped: false };
     loop {
         p.hints.push(it.size_hint());
+        p.lens.push(if it.size_hint().1.is_some() { TrustedLen::len(&it) } else { usize::MAX });
         match it.next() {
             Some(v) => {
                 if p.items.len() >= cap {
@@ -291,6 +318,12 @@ fn check_recipe(fam: &str, d: &Data, r: &Recipe, src_total: Option<usize>, ctx: 
             if p.capped {
                 bad = Some((format!("{} items (first hint)", p.hints[0].1.map_or("?".into(), |h| h.to_string())), format!("more than {} items", n), None));
             } else {
+                for (k, l) in p.lens.iter().enumerate() {
+                    let remaining = n.saturating_sub(k);
+                    if *l != remaining && bad.is_none() && p.hints[k].1 == Some(remaining) {
+                        bad = Some((format!("after {k} next(): TrustedLen::len() = remaining = {remaining}"), format!("len() = {l} with size_hint = {:?}", p.hints[k]), None));
+                    }
+                }
                 for (k, h) in p.hints.iter().enumerate() {
                     let remaining = n.saturating_sub(k);
                     if h.1 != Some(remaining) || h.0 > remaining {
@@ -400,6 +433,7 @@ fn src_name(s: &Src) -> String {
         Src::Linspace(..) => "linspace".into(),
         Src::RollIter(_) => "rolling_custom_iter".into(),
         Src::Winsor(..) => "winsorize".into(),
+        Src::VCut(_) => "vcut".into(),
     }
 }
 fn ad_name(a: &Ad) -> &'static str {
@@ -414,6 +448,7 @@ fn ad_name(a: &Ad) -> &'static str {
         Ad::VClip(..) => "vclip",
         Ad::Abs => "abs",
         Ad::VAbs => "vabs",
+        Ad::Scan => "scan",
     }
 }
 
@@ -454,6 +489,7 @@ fn sources_full(len: usize) -> Vec<Src> {
             v.push(Src::Winsor(m, p));
         }
     }
+    v.extend((0..CUTS.len()).map(Src::VCut));
     v
 }
 fn generators() -> Vec<Src> {
@@ -500,7 +536,7 @@ fn adaptors_full(len: usize) -> Vec<Ad> {
         v.push(Ad::Ffill(f));
         v.push(Ad::Bfill(f));
     }
-    v.extend([Ad::Fill(7.0), Ad::FfillMask0, Ad::FillMask0, Ad::Abs, Ad::VAbs]);
+    v.extend([Ad::Fill(7.0), Ad::FfillMask0, Ad::FillMask0, Ad::Abs, Ad::VAbs, Ad::Scan]);
     for lo in [None, Some(-1.0), Some(2.0)] {
         for hi in [None, Some(-1.0), Some(2.0)] {
             v.push(Ad::VClip(lo, hi));
@@ -511,7 +547,7 @@ fn adaptors_full(len: usize) -> Vec<Ad> {
 /// one instance per adaptor, parameters on the guard boundaries
 fn adaptors_reduced(len: usize) -> Vec<Ad> {
     let l = len as i32;
-    vec![Ad::Shift(l, 7.0), Ad::VShift(l + 1, None), Ad::VShift(-1, Some(7.0)), Ad::Ffill(None), Ad::Fill(7.0), Ad::VClip(Some(-1.0), Some(2.0)), Ad::VAbs, Ad::Shift(-1, 7.0)]
+    vec![Ad::Shift(l, 7.0), Ad::VShift(l + 1, None), Ad::VShift(-1, Some(7.0)), Ad::Ffill(None), Ad::Fill(7.0), Ad::VClip(Some(-1.0), Some(2.0)), Ad::VAbs, Ad::Shift(-1, 7.0), Ad::Scan]
 }
 
 /// the (next / next_back) operation machine on double-ended sources: every op sequence up to len+2
@@ -956,7 +992,7 @@ fn main() {
         assumptions: vec![
             "iterators are consumed by plain safe iteration, capped at hint + 4096 items; raw collectors only on recipes whose hints were validated (DESIGN 2.6)".into(),
             "range on dyadic grids, non-negative spans only (C19 owns the rest)".into(),
-            "vcut returns fallible items and is covered by C14".into(),
+            "vcut returns fallible items: an error item counts as an item here (the labels are C14's subject)".into(),
         ],
         exhaustive: true,
         min_states: 1000,
